@@ -94,7 +94,8 @@ void random_value (Stokes<T>& val, U scale, float max_polarization = 1.0)
   for (i=1; i<4; i++)
     val[i] *= scale;
 
-  if (val.invariant() < -1e-10)
+  // tolerate rounding error, which is proportional to the squared intensity
+  if (val.invariant() < -1e-10 * val[0] * val[0])
     throw std::runtime_error ("random_value (Stokes) invariant less than zero");
 }
 
